@@ -1696,6 +1696,7 @@ class World:
                         self.flag("C15", "I7", "solvePDE/result-depends-on-call-history",
                                   {"var": vent.name, "residual": r1, "reference_residual": r0})
                 # frame condition of the expert-level entry point (C15)
+                M = O.with_explicit_zero(M)
                 Mk, Rk = A.snap_csr(M), A.akey(RHS)
                 try:
                     pf.solveMatrixPDE(ment.obj, M, RHS)
@@ -1854,6 +1855,7 @@ class World:
                                                 "maxdiff": maxdiff(got_int, want_int)})
             return
         # hand-assembled system through the expert-level entry point
+        M = O.with_explicit_zero(M)
         Mk, Rk = A.snap_csr(M), A.akey(RHS)
         try:
             w = pf.solveMatrixPDE(ment.obj, M, RHS)
@@ -1906,6 +1908,7 @@ class World:
             raise Skip("assembly failed")
         if not (np.all(np.isfinite(M.data)) and np.all(np.isfinite(RHS))):
             raise Skip("non-finite system")
+        M = O.with_explicit_zero(M)
         Mk, Rk = A.snap_csr(M), A.akey(RHS)
         try:
             res = pf.solveMatrixPDE(ment.obj, M, RHS)
